@@ -13,7 +13,8 @@ func init() {
 		id:         "C15",
 		title:      "array methods behave like an ideal list",
 		run:        runC15,
-		decided:    "the receiver a native method gets is bound per lookup in a fresh cell (no store of a receiver into a cell that outlives the lookup; prototype cells are never handed out as lvalues); each array method reads / writes the receiver it is given in the documented way (method table as normalised dataflow: push appends one fresh cell and returns the array, pop/popfirst return the last/first element or null when empty and re-slice, length, contains in order via Compare == 0); sort works on a fresh slice of fresh cells with a stable sort API, numeric comparison under the all-numbers scan and string-form comparison otherwise, without storing to the receiver; index resolution counts negative indices from the end and rejects an index before the start; the fill loop appends one fresh null cell per slot.",
+		decided:    "the receiver a native method gets is bound per lookup in a fresh cell (no store of a receiver into a cell that outlives the lookup; prototype cells are never handed out as lvalues); each array method reads / writes the receiver it is given in the documented way (method table as normalised dataflow: push appends one fresh cell and returns the array, pop/popfirst return the last/first element or null when empty and re-slice, length, contains in order via Compare == 0); sort works on a fresh slice of fresh cells with a stable sort API, numeric comparison under the all-numbers scan and string-form comparison otherwise, without storing to the receiver; index resolution counts negative indices from the end and rejects an index before the start; the fill loop appends one fresh null cell per slot." +
+			" contains decides equality by Value.Equals (the == relation, unset equals nothing); for an array root the pattern rules see each element's own cell; pushed values are copies made by copyValue.",
 		notDecided: "equivalence with a list model over operation histories; the slice-header aliasing between two references to one array (reported under C09/R2, known finding).",
 	})
 }
